@@ -653,37 +653,77 @@ class Interp:
             if t == FALSE:
                 return out_f
             return self.join_env(out_t, out_f)
+        if isinstance(st, (ast.Continue, ast.Break)):
+            stack = getattr(self, "_loops", None)
+            if not stack:
+                self.unknowns.append(f"statement {type(st).__name__} outside a loop at line {st.lineno}")
+                return env
+            stack[-1]["cont" if isinstance(st, ast.Continue) else "brk"].append(dict(env))
+            return None
         if isinstance(st, ast.For):
+            if not hasattr(self, "_loops"):
+                self._loops = []  # type: ignore[attr-defined]
             it = self.ev(st.iter, env, owner)
             elems = self.iter_elems(it)
-            if elems is None:
-                env2 = dict(env)
-                self.assign(st.target, Unknown(f"iteration over {it!r}"), env2, owner)
-                out = self.exec_block(st.body, env2, rets, owner)
-                return self.join_env(env, out)
-            fixed, tail = elems
-            cur = env
-            for x in fixed:
-                e2 = dict(cur)
-                self.assign(st.target, x, e2, owner)
-                o = self.exec_block(st.body, e2, rets, owner)
-                cur = o if o is not None else cur
-            if tail is not None:
-                # zero or more further iterations: two unrollings joined with the skip path
-                for _ in range(2):
-                    e2 = dict(cur)
-                    self.assign(st.target, tail, e2, owner)
-                    o = self.exec_block(st.body, e2, rets, owner)
-                    cur = self.join_env(cur, o)
+            frame: Dict[str, list] = {"cont": [], "brk": []}
+            self._loops.append(frame)  # type: ignore[attr-defined]
+
+            def body(e2):
+                """One round: the state at its end, `continue` paths included."""
+                frame["cont"] = []
+                o_ = self.exec_block(st.body, e2, rets, owner)
+                for c_ in frame["cont"]:
+                    o_ = c_ if o_ is None else self.join_env(o_, c_)
+                return o_
+
+            try:
+                if elems is None:
+                    env2 = dict(env)
+                    self.assign(st.target, Unknown(f"iteration over {it!r}"), env2, owner)
+                    out = body(env2)
+                    cur = self.join_env(env, out)
+                else:
+                    fixed, tail = elems
+                    cur = env
+                    for x in fixed:
+                        e2 = dict(cur)
+                        self.assign(st.target, x, e2, owner)
+                        o = body(e2)
+                        if o is None and frame["brk"]:
+                            break  # every path of this round left the loop
+                        cur = o if o is not None else cur
+                    if tail is not None:
+                        # zero or more further iterations: two unrollings joined with the skip path
+                        for _ in range(2):
+                            e2 = dict(cur)
+                            self.assign(st.target, tail, e2, owner)
+                            o = body(e2)
+                            cur = self.join_env(cur, o)
+            finally:
+                self._loops.pop()  # type: ignore[attr-defined]
+            for b_ in frame["brk"]:
+                cur = self.join_env(cur, b_)
             return cur
         if isinstance(st, ast.While):
+            if not hasattr(self, "_loops"):
+                self._loops = []  # type: ignore[attr-defined]
+            frame = {"cont": [], "brk": []}
+            self._loops.append(frame)  # type: ignore[attr-defined]
             cur = env
-            for _ in range(2):
-                t, env_t, env_f = self.cond(st.test, cur, owner)
-                if t == FALSE:
-                    break
-                o = self.exec_block(st.body, dict(env_t), rets, owner)
-                cur = self.join_env(cur, o) if t == MAYBE else (o if o is not None else cur)
+            try:
+                for _ in range(2):
+                    t, env_t, env_f = self.cond(st.test, cur, owner)
+                    if t == FALSE:
+                        break
+                    frame["cont"] = []
+                    o = self.exec_block(st.body, dict(env_t), rets, owner)
+                    for c_ in frame["cont"]:
+                        o = c_ if o is None else self.join_env(o, c_)
+                    cur = self.join_env(cur, o) if t == MAYBE else (o if o is not None else cur)
+            finally:
+                self._loops.pop()  # type: ignore[attr-defined]
+            for b_ in frame["brk"]:
+                cur = self.join_env(cur, b_)
             return cur
         if isinstance(st, ast.FunctionDef):
             env[st.name] = FuncV(st, env, owner)  # closes over the live environment (late binding, as in Python)
@@ -787,25 +827,30 @@ class Interp:
             if isinstance(t.op, ast.And):
                 res = TRUE
                 cur = env
+                undecided_f = []
                 for v in t.values:
                     r, et, ef = self.cond(v, cur, owner)
                     if r == FALSE:
                         return FALSE, env_t, env_f
                     if r == MAYBE:
                         res = MAYBE
+                        undecided_f.append(ef)
                     cur = et
-                return res, cur, env_f
+                # exactly one operand can be false: the false branch knows which
+                return res, cur, (undecided_f[0] if len(undecided_f) == 1 else env_f)
             else:
                 res = FALSE
                 cur = env
+                undecided_t = []
                 for v in t.values:
                     r, et, ef = self.cond(v, cur, owner)
                     if r == TRUE:
                         return TRUE, env_t, env_f
                     if r == MAYBE:
                         res = MAYBE
+                        undecided_t.append(et)
                     cur = ef
-                return res, env_t, cur
+                return res, (undecided_t[0] if len(undecided_t) == 1 else env_t), cur
         if isinstance(t, ast.UnaryOp) and isinstance(t.op, ast.Not):
             r, et, ef = self.cond(t.operand, env, owner)
             return ({TRUE: FALSE, FALSE: TRUE, MAYBE: MAYBE}[r], ef, et)
@@ -843,7 +888,8 @@ class Interp:
         if isinstance(t, (ast.Name, ast.Attribute, ast.Subscript)):
             name = t.id if isinstance(t, ast.Name) else "§" + unparse(t)
             yes = [a for a in alts_of(env.get(name, v)) if self.truth(a) != FALSE]
-            no = [a for a in alts_of(env.get(name, v)) if self.truth(a) != TRUE]
+            # a string that counts as false is the empty string
+            no = [Const("") if isinstance(a, (StrV, Tmpl)) else a for a in alts_of(env.get(name, v)) if self.truth(a) != TRUE]
             if yes:
                 env_t[name] = mk_union(yes)
             if no:
@@ -1312,6 +1358,17 @@ class Interp:
             # value of `a or b` when a truthy: a
             pass
         vals = [self.ev(v, env, owner) for v in n.values]
+        if t == TRUE and isinstance(n.op, ast.Or):
+            # the first operand that is true decides; operands known to be false are passed over
+            out = []
+            for i_, (sub, v) in enumerate(zip(n.values, vals)):
+                tt = self.cond(sub, env, owner)[0]
+                if tt == FALSE and i_ < len(vals) - 1:
+                    continue
+                out.append(v)
+                if tt == TRUE:
+                    break
+            return mk_union(out)
         if t == TRUE:
             return BoolV("true") if not isinstance(n.op, ast.Or) else mk_union(vals)
         if t == FALSE:
@@ -1453,6 +1510,13 @@ class Interp:
                 return nv
             if attr == "children":
                 return Unknown("node.children")
+            if attr not in ("expr", "expr_name", "prettily", "match"):
+                # not an attribute of a parse node: the real program raises AttributeError here
+                if not hasattr(self, "node_attr_errors"):
+                    self.node_attr_errors = []  # type: ignore[attr-defined]
+                rec = (b.desc, attr, self.text_info(b)[1])
+                if rec not in self.node_attr_errors:  # type: ignore[attr-defined]
+                    self.node_attr_errors.append(rec)  # type: ignore[attr-defined]
             return Unknown(f"node.{attr}")
         if isinstance(b, Obj):
             if attr in b.fields:
@@ -1856,6 +1920,10 @@ class Interp:
                     return Const({"int": int, "float": float}[name](*[a_.value for a_ in args]))
                 except Exception:
                     pass
+            if name in ("int", "float") and len(args) == 1 and (isinstance(args[0], BoolV) or (isinstance(args[0], Union) and all(isinstance(a_, (BoolV, Const)) and (not isinstance(a_, Const) or isinstance(a_.value, bool)) for a_ in args[0].alts))):
+                # a truth value of unknown outcome: both numbers
+                conv = {"int": int, "float": float}[name]
+                return mk_union([Const(conv(True)), Const(conv(False))])
             if name in ("int", "float") and args:
                 nv = NumV(f"{name}()")
                 nv.conv = (name, args)  # type: ignore[attr-defined]
